@@ -1,6 +1,7 @@
 import PharmpyModel.Core.Sexp
 import PharmpyModel.C15.Thread
 import PharmpyModel.C15.Proc
+import PharmpyModel.C15.Pool
 open Pharmpy Pharmpy.C15
 
 def bad : Sexp := .list [.atom "err", .atom "bad-op"]
@@ -44,10 +45,23 @@ def kstateS (s : KS) (pids : List Nat) : Sexp :=
             .list [Sexp.ofNat p, Sexp.ofNats (sortNats l.sharedBy), Sexp.ofNats (sortNats l.exclBy),
                    (match l.pend with | none => .atom "none" | some pd => Sexp.ofNat pd.tid)])) ]
 
+def poolS (s : PoolSt) : Sexp :=
+  .list [ .list (s.pool.refs.map (fun e => .list [Sexp.ofNat e.1, Sexp.ofNat e.2.1, Sexp.ofNat e.2.2])),
+          Sexp.ofNats s.pool.destroyed ]
+
 structure St where
   fixed : Bool := true
   tls : List (Nat × TL) := []
   kss : List (Nat × KS) := []
+  pools : List (Nat × PoolSt) := []
+
+def St.getP (st : St) (k : Nat) : PoolSt :=
+  match st.pools.find? (fun p => p.1 == k) with
+  | some p => p.2
+  | none => {}
+
+def St.setP (st : St) (k : Nat) (s : PoolSt) : St :=
+  { st with pools := (k, s) :: st.pools.filter (fun p => p.1 != k) }
 
 def St.getK (st : St) (k : Nat) : KS :=
   match st.kss.find? (fun p => p.1 == k) with
@@ -69,7 +83,7 @@ def handle (st : St) (req : Sexp) : St × Sexp :=
   match req with
   | .list [.atom "reset", f] =>
     match f.asBool? with
-    | some f => ({ fixed := f, tls := [], kss := [] }, .atom "ok")
+    | some f => ({ fixed := f, tls := [], kss := [], pools := [] }, .atom "ok")
     | none => (st, bad)
   | .list [.atom "step", k, e] =>
     match k.asNat?, ev? e with
@@ -86,6 +100,16 @@ def handle (st : St) (req : Sexp) : St × Sexp :=
     | some k, some e, some pids => match pstep (st.getK k) e with
       | none => (st, .list [.atom "disabled"])
       | some (s', o) => (st.setK k s', .list [.atom "ok", .atom (poutS o), kstateS s' (pids.filterMap Sexp.asNat?)])
+    | _, _, _ => (st, bad)
+  | .list [.atom "pool", pid, .atom op, t, k] =>
+    match pid.asNat?, t.asNat?, k.asNat? with
+    | some pid, some t, some k =>
+      let ev? : Option PoolEv := if op == "enter" then some (.enter t k) else if op == "exit" then some (.exit t k) else none
+      match ev? with
+      | none => (st, bad)
+      | some ev => match poolStep (st.getP pid) ev with
+        | none => (st, .list [.atom "disabled"])
+        | some s' => (st.setP pid s', .list [.atom "ok", poolS s'])
     | _, _, _ => (st, bad)
   | .list [.atom "penabled", k, e] =>
     match k.asNat?, pev? e with
